@@ -141,12 +141,20 @@ def merge_runs(runs):
     return out
 
 
-def conc_run(fn, what):
-    """a concrete (non-solver) trusted-base check, reported separately and never counted as solver evidence"""
+def conc_run(fn, what, replay=None, witness=None):
+    """a concrete (non-solver) check, reported separately (engine 'concrete') and never counted as solver evidence.  Without a
+    replay recipe a failure is inconclusive (a broken trusted-base assumption); with `replay`/`witness` a failure becomes a
+    violation candidate that the parent re-runs on the real code like any solver witness."""
     t0 = time.time()
     ok, detail = fn()
-    return {"engine": "concrete", "stats": core.Stats().asdict(), "classes": {}, "violations": [],
-            "inconclusive": [] if ok else [f"trusted-base check failed: {what}: {detail}"], "wall_s": round(time.time() - t0, 3),
+    viol, inc = [], []
+    if not ok:
+        if replay is not None:
+            viol.append({"label": f"{what}: {detail}"[:400], "witness": dict(witness or {}), "replay": replay})
+        else:
+            inc.append(f"trusted-base check failed: {what}: {detail}")
+    return {"engine": "concrete", "stats": core.Stats().asdict(), "classes": {}, "violations": viol,
+            "inconclusive": inc, "wall_s": round(time.time() - t0, 3),
             "sample": {"trusted_base": what, "detail": detail}, "symbolic": False, "vars": []}
 
 
